@@ -14,6 +14,7 @@ pub mod probe;
 pub mod props;
 pub mod queries;
 pub mod refparse;
+pub mod srvkit;
 pub mod sut;
 
 use engine::*;
@@ -62,6 +63,10 @@ pub fn main_entry() {
         std::process::exit(2);
     }
     let id = args[1].clone();
+    if id == "smoke-server" {
+        smoke_server();
+        return;
+    }
     install_quiet_panic_hook();
     known::load(&verif_root().join("known-findings.json"));
 
@@ -174,6 +179,11 @@ pub fn main_entry() {
             );
             total.merge(&st);
             if let Some(f) = fail {
+                if f.message.contains("INCONCLUSIVE") {
+                    println!("{}", f.message);
+                    println!("INCONCLUSIVE: property {id} part {} could not be decided (infrastructure / time budget), no violation claimed", f.part);
+                    std::process::exit(2);
+                }
                 let path = write_replay(&id, &f, seed);
                 println!(
                     "property {id} part {}: {}\n  shrunk case: {}",
@@ -222,4 +232,33 @@ pub fn main_entry() {
         println!("VIOLATION property={id} replay={}", p.display());
         std::process::exit(1);
     }
+}
+
+fn smoke_server() {
+    let srv = srvkit::Server::start().expect("server");
+    let c = srv.client();
+    let mut jar = srvkit::http::Jar::default();
+    let r = c.json(&mut jar, "POST", "/users/register", &json!({"username":"u1","password":"pw1"})).unwrap();
+    println!("register: {} {}", r.status, r.text());
+    let r = c.json(&mut jar, "POST", "/users/login", &json!({"username":"u1","password":"pw1"})).unwrap();
+    println!("login: {} {} jar={:?}", r.status, r.text(), jar.cookies.keys().collect::<Vec<_>>());
+    let r = c.get(&mut jar, "/users/info").unwrap();
+    println!("info: {} {}", r.status, r.text());
+    let r = c.multipart(&mut jar, "/adf/add", &[("name","p1"),("code","s(a).s(b).ac(a,neg(b)).ac(b,neg(a))."),("parsing","Hybrid")]).unwrap();
+    println!("add: {} {}", r.status, r.text());
+    for _ in 0..50 {
+        let r = c.get(&mut jar, "/adf/p1").unwrap();
+        let v = r.json().unwrap();
+        if v["acs_per_strategy"]["parse_only"]["type"] != "None" { println!("get: {} {}", r.status, r.text()); break; }
+        std::thread::sleep(std::time::Duration::from_millis(50));
+    }
+    let r = c.json(&mut jar, "PUT", "/adf/p1/solve", &json!({"strategy":"Complete"})).unwrap();
+    println!("solve: {} {}", r.status, r.text());
+    std::thread::sleep(std::time::Duration::from_millis(500));
+    let r = c.get(&mut jar, "/adf/p1").unwrap();
+    println!("get: {} {}", r.status, r.text().chars().take(1500).collect::<String>());
+    let r = c.get(&mut jar, "/adf/").unwrap();
+    println!("list: {} {}", r.status, r.text().chars().take(300).collect::<String>());
+    println!("users in db: {:?}", srv.stub.snapshot("adf-obdd.users"));
+    for l in &srv.stub.db.lock().unwrap().log { println!("  db: {:?}", l); }
 }
